@@ -243,6 +243,40 @@ class Simulator(Computer, _mixins.CodeMixin):
         self._validate_instruction_modes(instructions, d)
         self._validate_instruction_order(instructions)
 
+    def _validate_execution(
+        self, instructions: List[Instruction], shots: Union[int, None], d: int
+    ) -> None:
+        """
+        Performs the validations depending on the number of shots, on the modes still
+        active when an instruction is reached and on the instruction parameters, before
+        any of the instructions is executed.
+        """
+
+        active_modes = tuple(range(d))
+
+        for instruction in instructions:
+            if (
+                isinstance(instruction, Measurement)
+                and shots is None
+                and not isinstance(
+                    instruction, self._measurement_classes_allowed_with_shots_none
+                )
+            ):
+                raise InvalidParameter(
+                    f"The measurement '{type(instruction).__name__}' instruction does "
+                    f"not support 'shots=None' using '{self.__class__.__name__}'."
+                )
+
+            modes = instruction.modes if instruction.modes else active_modes
+
+            instruction._validate_modes(modes)
+
+            if self.config.validate and instruction._is_resolved():
+                instruction._validate(self._connector)
+
+            if isinstance(instruction, Measurement):
+                active_modes = tuple(m for m in active_modes if m not in modes)
+
     def _validate_initial_state(self, initial_state: State, d: int) -> None:
         if not isinstance(initial_state, self._state_class):
             raise InvalidState(
@@ -438,6 +472,8 @@ class Simulator(Computer, _mixins.CodeMixin):
         d = self._try_to_infer_d_from_instructions(instructions)
 
         self._validate_instructions(instructions, d)
+
+        self._validate_execution(instructions, shots, d)
 
         if initial_state is not None:
             self._validate_initial_state(initial_state, d)
